@@ -25,6 +25,7 @@ type FuncResult struct {
 	Err      error
 	Scenario string
 	Plan     *replayPlan
+	Sct      scenarioT
 }
 
 func (e *Exec) specEnv(st, old *State) *specCtx {
@@ -324,6 +325,7 @@ func (eng *Engine) verifyFunc(fn *ssa.Function, fc *FuncContract, props []string
 	}
 	res.Obls = e.obls
 	res.Plan = e.plan
+	res.Sct = sct
 	for _, o := range res.Obls {
 		o.Inputs = e.inputs
 		if scenName != "" {
